@@ -80,6 +80,28 @@
 (*        arrives) + the bitmap-segment constant.                          *)
 (* An over-allocation "by design" inside these constants is NOT flagged;   *)
 (* anything driven by an untrusted count or length beyond them is.         *)
+(*                                                                         *)
+(* REFINEMENTS OF THE BOUNDS (derived from the decoders' own limits).       *)
+(*   DecA(d)  a call that the DECODER ITSELF refused (out = err, no         *)
+(*        post-decode step ran) is held to the decoder-only constant:       *)
+(*        fixed-size decoders 8 KiB; PeerAddrs MAX_PEER_ADDRS * 32 B;       *)
+(*        Locator MAX_LOCATORS * 32 B; bitmap segments 128 blocks of        *)
+(*        64 chunks = 1 MiB (+ 128 KiB): the 4 MiB constant is for the      *)
+(*        conversion and validation of a segment that decoded.              *)
+(*   Codec::read, per frame.  MsgLimit(t) is the table max_msg_size of      *)
+(*        p2p/src/msg.rs; the header check admits FrameAdmit(t) = 4 *       *)
+(*        MsgLimit(t) bytes.  A call whose first frame header announces     *)
+(*        more must consume exactly the 11 header bytes, deliver nothing,   *)
+(*        and stay within 64 KiB; while only the first frame has been       *)
+(*        worked on (consumed < announced + 22) the call is bounded by      *)
+(*        min(announced, FrameAdmit(t)) + the constant of that body's       *)
+(*        decoder + 64 KiB (+ 16 * len).                                    *)
+(*   Serving a Get*Segment request.  The response is built by design and    *)
+(*        its memory is not charged to the 41-byte request; instead         *)
+(*        ServeOK demands that a FULL segment of every admitted identifier  *)
+(*        height fits the frame limit of its response on Mainnet            *)
+(*        (2^height * bytes per leaf <= MsgLimit(response)), and that the   *)
+(*        response actually built does.                                     *)
 (***************************************************************************)
 EXTENDS Naturals, Integers, Sequences, FiniteSets, TLC
 
@@ -93,9 +115,45 @@ StreamDecoders  == {"Codec::read", "msg::read_message<Hand>", "msg::read_message
 BodyDecoders    == {"TransactionBody::read", "Transaction::read", "Block::read", "UntrustedBlock::read",
                     "CompactBlock::read", "UntrustedCompactBlock::read"}
 
+\* chain types: "auto" (AutomatedTesting), "main" (Mainnet), "test" (Testnet: Mainnet's limits, own magic and fork heights)
+ChainTypes == {"auto", "main", "test"}
 \* largest message accepted by MsgHeaderWrapper::read: 4 * (2 * max_block_size), max_block_size = weight / 21 * 708
-MaxBlockWeight(ct) == IF ct = "main" THEN 40000 ELSE 250
-CodecMaxMsg(ct) == 8 * ((MaxBlockWeight(ct) \div 21) * 708)
+MaxBlockWeight(ct) == IF ct \in {"main", "test"} THEN 40000 ELSE 250
+MaxBlockSize(ct) == (MaxBlockWeight(ct) \div 21) * 708
+CodecMaxMsg(ct) == 8 * MaxBlockSize(ct)
+
+\* limit constants of the readers (p2p/src/msg.rs, core/src/ser.rs, core/src/core/pmmr/segment.rs, bitmap_accumulator.rs)
+MaxPeerAddrs == 256
+MaxLocators == 20
+MaxBlockHeaders == 512
+BitmapMaxBlocks == 128       \* segment height 13: 2^13 chunks / 64 chunks per block
+BitmapBlockBytes == 8 * KiB  \* 64 chunks of 1024 bits
+
+\* p2p/src/msg.rs max_msg_size, by message type number (enum Type); anything else is an unknown type
+MsgTypes == 0..28
+UnknownType == 29
+MsgLimit(t, ct) ==
+    CASE t = 0 -> 0                                   \* Error
+      [] t = 1 -> 128                                 \* Hand
+      [] t = 2 -> 88                                  \* Shake
+      [] t \in {3, 4} -> 16                           \* Ping, Pong
+      [] t = 5 -> 4                                   \* GetPeerAddrs
+      [] t = 6 -> 4 + (1 + 16 + 2) * MaxPeerAddrs     \* PeerAddrs
+      [] t = 7 -> 1 + 32 * MaxLocators                \* GetHeaders
+      [] t = 8 -> 365                                 \* Header
+      [] t = 9 -> 2 + 365 * MaxBlockHeaders           \* Headers
+      [] t \in {10, 12, 19, 20} -> 32                 \* GetBlock, GetCompactBlock, GetTransaction, TransactionKernel
+      [] t \in {11, 14, 15} -> MaxBlockSize(ct)       \* Block, StemTransaction, Transaction
+      [] t = 13 -> MaxBlockSize(ct) \div 10           \* CompactBlock
+      [] t = 16 -> 40                                 \* TxHashSetRequest
+      [] t \in {17, 18} -> 64                         \* TxHashSetArchive, BanReason
+      [] t \in {21, 23, 25, 27} -> 41                 \* Get*Segment
+      [] t \in {22, 24, 26, 28} -> 2 * MaxBlockSize(ct)   \* *Segment
+      [] OTHER -> MaxBlockSize(ct)                    \* unknown type: default_max_msg_size
+TypeClass(t) == IF t \in MsgTypes THEN t ELSE UnknownType
+FrameAdmit(t, ct) == 4 * MsgLimit(TypeClass(t), ct)
+MaxFrameAdmit(ct) == CodecMaxMsg(ct)
+FrameHeaderLen == 11
 
 AllocA(d, ct) ==
     CASE d \in SegmentDecoders -> 1 * MiB
@@ -104,6 +162,50 @@ AllocA(d, ct) ==
       [] OTHER                 -> 128 * KiB
 AllocB(d, ct) == 16
 Bound(d, ct, len) == AllocA(d, ct) + AllocB(d, ct) * len
+
+\* decoders that read a fixed number of bytes and no length-prefixed field
+FixedDecoders == {"Hash::read", "ShortId::read", "KernelFeatures::read", "TxKernel::read", "Input::read", "CommitWrapper::read",
+                  "OutputIdentifier::read", "BlockHeader::read", "UntrustedBlockHeader::read", "Proof::read", "ProofOfWork::read",
+                  "SegmentIdentifier::read", "MsgHeaderWrapper::read", "Ping::read", "Pong::read", "GetPeerAddrs::read",
+                  "PeerAddr::read", "BanReason::read", "TxHashSetRequest::read", "TxHashSetArchive::read", "SegmentRequest::read"}
+\* the decoder-only constant: a call the decoder itself refused never ran a post-decode step
+DecA(d, ct) ==
+    CASE d \in FixedDecoders     -> 8 * KiB
+      [] d = "PeerAddrs::read"   -> MaxPeerAddrs * 32 + 4 * KiB
+      [] d = "Locator::read"     -> MaxLocators * 32 + 4 * KiB
+      [] d \in BitmapDecoders    -> BitmapMaxBlocks * BitmapBlockBytes + 128 * KiB
+      [] OTHER                   -> AllocA(d, ct)
+\* constant of the decoder (and post-decode steps) of the body of a frame of type t
+FrameBodyA(t) ==
+    CASE t = 22 -> 4 * MiB
+      [] t \in {24, 26, 28} -> 1 * MiB
+      [] OTHER -> 128 * KiB
+Min(a, b) == IF a <= b THEN a ELSE b
+\* fr = [ty, len]: type and announced length of the first frame header of a Codec::read input (ty = -1: there is none)
+NoFrame == [ty |-> -1, len |-> 0]
+FrameRefused(ct, fr) == fr.ty >= 0 /\ fr.len > FrameAdmit(fr.ty, ct)
+FirstFrameOnly(fr, consumed) == fr.ty >= 0 /\ consumed < fr.len + 2 * FrameHeaderLen
+CodecBound(ct, len, fr, consumed) ==
+    IF FrameRefused(ct, fr) THEN 64 * KiB + 16 * len
+    ELSE IF FirstFrameOnly(fr, consumed)
+         THEN Min(fr.len, FrameAdmit(fr.ty, ct)) + FrameBodyA(fr.ty) + 64 * KiB + 16 * len
+         ELSE Bound("Codec::read", ct, len)
+\* the allocation bound of one finished call
+CallBound(d, ct, len, fr, out, consumed) ==
+    IF d = "Codec::read" THEN CodecBound(ct, len, fr, consumed)
+    ELSE IF out = "err" THEN DecA(d, ct) + AllocB(d, ct) * len
+    ELSE Bound(d, ct, len)
+
+\* ---- serving Get*Segment: bytes of one leaf on the wire (position + smallest item; a bitmap chunk: 128 raw bytes)
+ServeKinds == {"kernel", "bitmap", "output", "rangeproof"}
+ServeLeafBytes(k) == CASE k = "kernel" -> 8 + 98 [] k = "bitmap" -> 128 [] k = "output" -> 8 + 34 [] OTHER -> 8 + 683
+ServeLimit == 2 * MaxBlockSize("main")
+Pow2(n) == 2 ^ n
+ServeOK(kind, h, resp) ==
+    /\ kind \in ServeKinds
+    /\ h < 22
+    /\ Pow2(h) * ServeLeafBytes(kind) <= ServeLimit
+    /\ resp <= ServeLimit
 
 GoodOutcomes == {"ok", "err"}
 AllOutcomes  == GoodOutcomes \cup {"panic", "abort", "hang"}
@@ -164,6 +266,11 @@ CONSTANTS ModelDecoders,   \* decoder names used by the bounded model
           ModelLens,       \* input lengths used by the bounded model
           Env              \* outcomes the modelled decoder may produce: GoodOutcomes = the contract
 
+\* first frame headers used by the bounded model for Codec::read: none, a Ping frame at / over its admitted length
+ModelFrames(d) == IF d = "Codec::read" THEN {NoFrame, [ty |-> 3, len |-> 64], [ty |-> 3, len |-> 65]} ELSE {NoFrame}
+\* segment requests admitted by the serving step of the bounded model (Env = the contract: only those within ServeOK)
+ModelServed == {<<>>, <<[kind |-> "kernel", h |-> 13, resp |-> 1000]>>, <<[kind |-> "kernel", h |-> 40, resp |-> 1000]>>}
+
 VARIABLES phase,   \* "idle" | "call" | "stream"
           cur,     \* [dec, ct, ver, len] of the call in progress
           used,    \* bytes consumed so far by the call in progress
@@ -173,15 +280,15 @@ VARIABLES phase,   \* "idle" | "call" | "stream"
 
 vars == <<phase, cur, used, reads, pstep, last>>
 
-NoCall == [dec |-> "-", ct |-> "auto", ver |-> 0, len |-> 0]
-NoLast == [out |-> "ok", used |-> 0, reads |-> 0, peak |-> 0, len |-> 0, dec |-> "-", ct |-> "auto", step |-> ""]
+NoCall == [dec |-> "-", ct |-> "auto", ver |-> 0, len |-> 0, fr |-> NoFrame]
+NoLast == [out |-> "ok", used |-> 0, reads |-> 0, peak |-> 0, len |-> 0, dec |-> "-", ct |-> "auto", step |-> "", fr |-> NoFrame, served |-> <<>>]
 
 Init == phase = "idle" /\ cur = NoCall /\ used = 0 /\ reads = 0 /\ pstep = 0 /\ last = NoLast
 
-Begin(d, ct, v, len) ==
+Begin(d, ct, v, len, fr) ==
     /\ phase = "idle"
     /\ phase' = IF d \in StreamDecoders THEN "stream" ELSE "call"
-    /\ cur' = [dec |-> d, ct |-> ct, ver |-> v, len |-> len]
+    /\ cur' = [dec |-> d, ct |-> ct, ver |-> v, len |-> len, fr |-> fr]
     /\ used' = 0 /\ reads' = 0 /\ pstep' = 0
     /\ UNCHANGED last
 
@@ -197,32 +304,43 @@ Read(n) ==
     /\ phase = "stream"
     /\ n \in 0..(cur.len - used)
     /\ (Env = GoodOutcomes => n >= 1)
+    /\ (Env = GoodOutcomes => ~FrameRefused(cur.ct, cur.fr))     \* a frame the header check refuses is never delivered
     /\ used' = used + n /\ reads' = reads + 1
     /\ pstep' = 0                          \* the steps start over on the message just delivered
     /\ UNCHANGED <<phase, cur, last>>
 
-End(out, n, peak) ==
+\* sv: the Get*Segment requests the serving step admitted during the call (sequence of [kind, h, resp])
+End(out, n, peak, sv) ==
     /\ phase \in {"call", "stream"}
     /\ out \in Env
     /\ n \in 0..(cur.len - used)          \* bytes consumed by the final (failing or only) step
+    \* the contract of a refused frame: the 11 header bytes and nothing else
+    /\ (Env = GoodOutcomes /\ cur.dec = "Codec::read" /\ FrameRefused(cur.ct, cur.fr)) => (out = "err" /\ used + n = FrameHeaderLen)
+    /\ (Env = GoodOutcomes => \A i \in 1..Len(sv) : ServeOK(sv[i].kind, sv[i].h, sv[i].resp))
+    /\ (Env = GoodOutcomes => peak <= CallBound(cur.dec, cur.ct, cur.len, cur.fr, out, used + n))
     /\ last' = [out |-> out, used |-> used + n, reads |-> reads, peak |-> peak, len |-> cur.len, dec |-> cur.dec, ct |-> cur.ct,
-                 step |-> StepName(cur.dec, pstep)]   \* the call ended (returned, or panicked / aborted / hung) in this step
+                 step |-> StepName(cur.dec, pstep),   \* the call ended (returned, or panicked / aborted / hung) in this step
+                 fr |-> cur.fr, served |-> sv]
     /\ phase' = "idle" /\ cur' = NoCall /\ used' = 0 /\ reads' = 0 /\ pstep' = 0
 
-PeakChoices(d, ct, len) == {0, Bound(d, ct, len)} \cup (IF Env = GoodOutcomes THEN {} ELSE {Bound(d, ct, len) + 1})
+PeakChoices(d, ct, len) == {0, DecA(d, ct), DecA(d, ct) + 1, Bound(d, ct, len), Bound(d, ct, len) + 1, 64 * KiB + 16 * len, 64 * KiB + 16 * len + 1}
 
 Next ==
-    \/ \E d \in ModelDecoders, len \in ModelLens : Begin(d, "auto", 1, len)
+    \/ \E d \in ModelDecoders, len \in ModelLens : \E fr \in ModelFrames(d) : Begin(d, "auto", 1, len, fr)
     \/ \E n \in 0..3 : Read(n)
     \/ PostStep
-    \/ \E out \in AllOutcomes, n \in 0..3 : \E p \in PeakChoices(cur.dec, cur.ct, cur.len) : End(out, n, p)
+    \/ \E out \in AllOutcomes, n \in 0..11 : \E p \in PeakChoices(cur.dec, cur.ct, cur.len) : \E sv \in ModelServed : End(out, n, p, sv)
 
 Spec == Init /\ [][Next]_vars
 
 \* ---- the contract, as state predicates on the last finished call
 OutcomeOK    == last.out \in GoodOutcomes
 ConsumedOK   == last.used <= last.len
-AllocBounded == last.peak <= Bound(last.dec, last.ct, last.len)
+AllocBounded == last.peak <= CallBound(last.dec, last.ct, last.len, last.fr, last.out, last.used)
+\* a frame announcing more than the header check admits: 11 bytes consumed, nothing delivered
+FrameLimitOK == (last.dec = "Codec::read" /\ FrameRefused(last.ct, last.fr)) => (last.out = "err" /\ last.used = FrameHeaderLen /\ last.reads = 0)
+\* every admitted segment request could be answered within the frame limit of its response
+ServeBounded == \A i \in 1..Len(last.served) : ServeOK(last.served[i].kind, last.served[i].h, last.served[i].resp)
 \* per-step progress (every Read consumed >= 1 byte) implies: a stream is read at most `used` <= len times
 Progress     == last.reads <= last.used
 InCallOK     == (phase = "stream" => reads <= used /\ used <= cur.len) /\ (phase = "idle" => used = 0 /\ reads = 0 /\ pstep = 0)
@@ -230,12 +348,14 @@ InCallOK     == (phase = "stream" => reads <= used /\ used <= cur.len) /\ (phase
 StepKnown    == last.step = "" \/ last.step \in StepSet(last.dec)
 
 \* the same contract as an operator on a logged call, used by the trace specification
-CallOK(d, ct, len, out, consumed, nreads, peak, step) ==
+CallOK(d, ct, len, fr, out, consumed, nreads, peak, step, sv) ==
     /\ out \in GoodOutcomes
     /\ (step = "" \/ step \in StepSet(d))
     /\ consumed <= len
-    /\ peak <= Bound(d, ct, len)
+    /\ peak <= CallBound(d, ct, len, fr, out, consumed)
     /\ (d \in StreamDecoders => nreads <= consumed)
+    /\ ((d = "Codec::read" /\ FrameRefused(ct, fr)) => (out = "err" /\ consumed = FrameHeaderLen /\ nreads = 0))
+    /\ \A i \in 1..Len(sv) : ServeOK(sv[i].kind, sv[i].h, sv[i].resp)
 
 -----------------------------------------------------------------------------
 (* (2) the mutation-plan generator over abstract layouts                    *)
@@ -308,6 +428,71 @@ IdentOK(lay) ==
     /\ lay.ih > 0 => /\ lay.ih \in 1..Len(lay.kinds) /\ lay.ii \in 1..Len(lay.kinds)
                      /\ lay.kinds[lay.ih] = "u8" /\ lay.kinds[lay.ii] = "u64"
     /\ lay.pf > 0 => lay.pf \in 1..Len(lay.kinds) /\ lay.kinds[lay.pf] = "u64"
+
+\* ---- MANY ITEMS.  A layout may carry repeated groups lay.grp[k] = <<c, a, z, e>>: count field c, the first item is the
+\* fields a..z, the group ends with field e.  The group is re-encoded with n verbatim copies of its first item (count field
+\* set to n) for n = every limit of the decoder, one less, one more, and as many copies as fit RepeatMaxBytes; and, at the
+\* largest of those counts, with every copy carrying a boundary value in one of the item's own small integer fields (the
+\* per-item limits - chunks per bitmap block, tag bytes - are only reached when the item count is).
+ItemBytes(lay, g) == LET RECURSIVE sum(_)
+                         sum(i) == IF i > g[3] THEN 0 ELSE lay.w[i] + sum(i + 1)
+                     IN sum(g[2])
+RepeatLimits(lay) == Limits(lay.dec, lay.ct) \cup {2, 64, 65}
+RepeatCounts(lay, g, maxBytes) ==
+    LET ib == ItemBytes(lay, g)
+        fill == maxBytes \div ib
+    IN  {n \in UNION {{l - 1, l, l + 1} : l \in RepeatLimits(lay)} \cup {fill} : n >= 2 /\ n <= fill}
+\* the first few small integer fields of the item
+InnerFields(lay, g) == {i \in g[2]..g[3] : lay.kinds[i] \in {"u8", "u16"} /\ Cardinality({j \in g[2]..i : lay.kinds[j] \in {"u8", "u16"}}) <= 4}
+\* a bitmap segment admits 2^height / 64 blocks: its blocks are repeated under the identifier {height 13, idx 0}
+BitmapLayout(lay) == lay.dec \in BitmapDecoders \/ (lay.dec = "Codec::read" /\ lay.fty = 22)
+RepeatOps(lay, maxBytes) ==
+    {[op |-> "repeat", c |-> lay.grp[k][1], a |-> lay.grp[k][2], z |-> lay.grp[k][3], e |-> lay.grp[k][4],
+      ns |-> RepeatCounts(lay, lay.grp[k], maxBytes),
+      nis |-> {n \in RepeatCounts(lay, lay.grp[k], maxBytes \div 4) : n \in RepeatLimits(lay) /\ n <= 10000},
+      inner |-> {[g |-> i, vs |-> ValueClasses(lay.w[i], Limits(lay.dec, lay.ct))] : i \in InnerFields(lay, lay.grp[k])},
+      idh |-> IF lay.ih > 0 /\ BitmapLayout(lay) THEN 13 ELSE -1]
+     : k \in 1..Len(lay.grp)}
+GroupsOK(lay) == \A k \in 1..Len(lay.grp) :
+    LET g == lay.grp[k] IN g[1] \in 1..Len(lay.kinds) /\ g[1] < g[2] /\ g[2] <= g[3] /\ g[3] <= g[4] /\ g[4] <= Len(lay.kinds)
+                           /\ lay.kinds[g[1]] \in IntKinds
+
+\* ---- HARD-FORK ERAS.  A layout that carries a block header (lay.hv / hh / he: its version, height and edge_bits fields;
+\* 0 = none) gets the joint plan: heights around every hard-fork boundary of the layout's chain type x header versions
+\* 0..6 x edge_bits classes (below / at / above the minimum of every chain type, the secondary size 29, the 63 / 64 limit of
+\* Proof::read); the harness re-packs nonces of that width.  valid_header_version and every arm of create_pow_context
+\* (cuckaroo, cuckarood, cuckaroom, cuckarooz, cuckatoo, none) are thereby run on untrusted (height, version, edge_bits).
+HardForkHeights(ct) ==
+    CASE ct = "main" -> {262080 * k : k \in 0..5}
+      [] ct = "test" -> {0, 185040, 298080, 552960, 642240}
+      [] OTHER       -> {3 * k : k \in 0..5}
+EraHeights(ct) == {h \in UNION {{f - 1, f, f + 1} : f \in HardForkHeights(ct)} : h >= 0}
+EraVersions == 0..6
+EraEdgeBits == {0, 1, 9, 10, 11, 15, 28, 29, 30, 31, 32, 33, 62, 63, 64, 255}
+EraOps(lay) ==
+    IF lay.hv = 0 THEN {}
+    ELSE {[op |-> "era", g |-> lay.hh, e |-> lay.he, hs |-> EraHeights(lay.ct), vs |-> EraVersions, bs |-> EraEdgeBits]}
+EraOK(lay) == lay.hv > 0 => /\ {lay.hv, lay.hh, lay.he} \subseteq 1..Len(lay.kinds)
+                            /\ lay.kinds[lay.hv] = "u16" /\ lay.kinds[lay.hh] = "u64" /\ lay.kinds[lay.he] = "u8"
+
+\* ---- FRAME LENGTHS.  A codec layout made of one frame of type lay.fty (>= 0) gets its announced length set to the
+\* boundary of what the header check admits for that type, to multiples of it, and to the largest length any type
+\* admits, with the announced body present in full (so that an admitted frame is read, a refused one is not).
+FrameLens(t, ct) ==
+    LET a == FrameAdmit(t, ct) IN
+    {l \in {a - 1, a, a + 1, 2 * a, 16 * a + 1, MaxFrameAdmit(ct), MaxFrameAdmit(ct) + 1} : l >= 0}
+FrameLenOps(lay) == IF lay.fty < 0 THEN {} ELSE {[op |-> "framelen", ls |-> FrameLens(lay.fty, lay.ct)]}
+
+\* ---- MANY VALID ITEMS.  The harness can build, with the repository's own encoders, the families of encodings it lists
+\* (records [fam, kind, unit, limit, lo, cts]) at any item count; the counts are half the limit, the limit and one more,
+\* where the limit of a "weight" family is max_block_weight / weight of one item, of a "count" family the named constant,
+\* and a "height" family (a segment cut out of a real MMR) is taken at the two lowest identifier heights that are served.
+NamedLimit(name) == CASE name = "MAX_PEER_ADDRS" -> MaxPeerAddrs [] name = "MAX_LOCATORS" -> MaxLocators
+                      [] name = "MAX_BLOCK_HEADERS" -> MaxBlockHeaders [] OTHER -> 1
+BigCounts(f, ct) ==
+    IF f.kind = "height" THEN {f.lo, f.lo + 1}
+    ELSE LET l == IF f.kind = "weight" THEN MaxBlockWeight(ct) \div f.unit ELSE NamedLimit(f.limit)
+         IN  {l \div 2, l, l + 1}
 
 \* fields mutated in a long layout (index lists of thousands of u16): the head, the tail, and a sample
 FieldsOf(lay, maxFields) ==
